@@ -62,3 +62,88 @@ package didstore
 //@   modifies nothing
 //@   loop 1 invariant forall k int :: 0 <= k && k < $i ==> !el.Events[k].equal(newEvent)
 //@   ensures [member-by-ref] result <==> exists k int :: 0 <= k && k < len(el.Events) && el.Events[k].equal(newEvent)
+
+// ---- C10: applying an event on top of the latest version ----
+
+// A conflict is folded: every unconsumed branch is merged into the result of the previous merge
+// (not into the bare new document), and the stored hash is the hash of the document returned.
+//@ func applyDocument
+//@   prop C10
+//@   nullable currentMeta
+//@   loop 3 invariant !did(call mergeDocuments #1) || same(newDoc, ret(call mergeDocuments #1))
+//@   call mergeDocuments #1 requires same(arg(1), newDoc)
+//@   ensures [first-version-as-is] currentMeta == nil ==> same(result.0, newDoc) && same(result.1, newMeta) && isNilIface(result.2)
+//@   ensures [version-increments] currentMeta != nil && isNilIface(result.2) ==> result.1.Version == old(currentMeta.Version) + 1 && same(result.1.Created, old(currentMeta.Created))
+//@   ensures [deactivation-is-permanent] currentMeta != nil && isNilIface(result.2) && old(currentMeta.Deactivated) ==> result.1.Deactivated
+//@   ensures [links-to-previous-version] currentMeta != nil && isNilIface(result.2) ==> result.1.PreviousHash != nil
+//@   ensures [hash-is-of-the-returned-document] did(call json.Marshal #1) ==> arg(call json.Marshal #1, 0) == any(result.0) && same(result.1.Hash, ret(call hash.SHA256Sum #1))
+
+// ---- C10: the merged (conflicted) document is canonical: every multi-valued field that was collected
+// through a Go map is sorted before the document is returned, so its hash does not depend on map order ----
+//@ func mergeDocuments
+//@   prop C10
+//@   ensures [context-canonical] didCallWith("sort.Slice", 0, any(result.Context))
+//@   ensures [controllers-canonical] didCallWith("sort.Slice", 0, any(result.Controller))
+//@   ensures [services-canonical] didCallWith("sort.Slice", 0, any(result.Service))
+//@   ensures [verification-methods-canonical] didCallWith("sort.Slice", 0, any(result.VerificationMethod))
+//@   ensures [key-agreements-canonical] didCallWith("sort.Slice", 0, any(result.KeyAgreement))
+//@   ensures [assertion-methods-canonical] didCallWith("sort.Slice", 0, any(result.AssertionMethod))
+//@   ensures [authentications-canonical] didCallWith("sort.Slice", 0, any(result.Authentication))
+//@   ensures [capability-invocations-canonical] didCallWith("sort.Slice", 0, any(result.CapabilityInvocation))
+//@   ensures [capability-delegations-canonical] didCallWith("sort.Slice", 0, any(result.CapabilityDelegation))
+
+//@ func verificationMethodSort
+//@   prop C10
+//@   modifies nothing
+
+//@ func keyAgreementSort
+//@   prop C10
+//@   modifies nothing
+
+//@ func assertionSort
+//@   prop C10
+//@   modifies nothing
+
+//@ func authenticationSort
+//@   prop C10
+//@   modifies nothing
+
+//@ func capabilityInvocationSort
+//@   prop C10
+//@   modifies nothing
+
+//@ func capabilityDelegationSort
+//@   prop C10
+//@   modifies nothing
+
+//@ func serviceSort
+//@   prop C10
+//@   modifies nothing
+
+//@ func contextSort
+//@   prop C10
+//@   modifies nothing
+
+//@ func (documentMetadata).isConflicted
+//@   inline
+
+// ---- C10: the conflicted-documents counter follows the DID's own conflicted flag ----
+
+//@ func (*store).addCachedConflict
+//@   prop C10
+//@   modifies *tl.conflictedDocuments
+
+//@ func (*store).removeCachedConflict
+//@   prop C10
+//@   modifies *tl.conflictedDocuments
+
+// The counter is rewritten as  old count + (conflicted now) - (conflicted before), where "conflicted
+// before" is the flag stored for this DID, which therefore must have been read on every path.
+//@ func (*store).applyFrom
+//@   prop C10
+//@   nullable base
+//@   requires base != nil || len(applyList) > 0
+//@   call (binary.bigEndian).PutUint32 #1 requires [flag-read-before-count-rewritten] did(call (go-stoabs.Writer).Get #2) || did(call (go-stoabs.Writer).Get #3)
+//@   call (binary.bigEndian).PutUint32 #1 requires [count-arithmetic] arg(2) == (did(call (binary.bigEndian).Uint32 #1) ? ret(call (binary.bigEndian).Uint32 #1) : uint32(0))
+//@           + ((len(metadata.SourceTransactions) > 1 && !((did(call (go-stoabs.Writer).Get #2) && len(ret(call (go-stoabs.Writer).Get #2).0) > 0) || (did(call (go-stoabs.Writer).Get #3) && len(ret(call (go-stoabs.Writer).Get #3).0) > 0))) ? uint32(1) : uint32(0))
+//@           - ((len(metadata.SourceTransactions) <= 1 && ((did(call (go-stoabs.Writer).Get #2) && len(ret(call (go-stoabs.Writer).Get #2).0) > 0) || (did(call (go-stoabs.Writer).Get #3) && len(ret(call (go-stoabs.Writer).Get #3).0) > 0))) ? uint32(1) : uint32(0))
